@@ -248,7 +248,11 @@ func scenHold(e *Env, args []string, r *rand.Rand) {
 func scenCollision(e *Env, args []string, r *rand.Rand) {
 	m := argMap(args)
 	ras := uint32(atoi(m["ras"], remoteAS))
-	p := e.addPeer(1, PeerOpts{LocalAS: localAS, RemoteAS: ras, Hold: 90, IdleHold: 5 * time.Second})
+	ihold := 5 * time.Second
+	if m["redial"] == "1" {
+		ihold = 40 * time.Millisecond
+	}
+	p := e.addPeer(1, PeerOpts{LocalAS: localAS, RemoteAS: ras, Hold: 90, IdleHold: ihold})
 	e.serve()
 	out := p.remote.accept(stepWait)
 	if out == nil || len(out.waitMsgs(1, stepWait)) < 1 {
@@ -256,6 +260,21 @@ func scenCollision(e *Env, args []string, r *rand.Rand) {
 		return
 	}
 	p.waitEv(0, stepWait, "log.t", "out", "*", "openSent")
+	if m["redial"] == "1" {
+		// the outbound connection of the collision is not the FSM's first: an earlier attempt got as far as OpenSent and
+		// was hung up on by the remote
+		from := e.tr.len()
+		out.fin()
+		out.waitEnd(stepWait)
+		p.waitEv(from, stepWait, "log.t", "out", "openSent", "*")
+		p.mark = e.tr.len()
+		out = p.remote.accept(stepWait)
+		if out == nil || len(out.waitMsgs(1, stepWait)) < 1 {
+			e.close()
+			return
+		}
+		p.waitEv(p.mark, stepWait, "log.t", "out", "*", "openSent")
+	}
 	rid := uint32(remoteID)
 	if m["rid"] != "" {
 		a := net.ParseIP(m["rid"]).To4()
@@ -353,6 +372,39 @@ func other(d string) string {
 // other FSM is driven to request Established (ka) or to fail (fin); both outcomes of the select are legal.
 func scenCollisionWindow(e *Env, args []string, r *rand.Rand) {
 	variant := args[0]
+	if variant == "est-window" {
+		// the outbound connection asks for Established while an inbound FSM has just been created and has not had its
+		// first transition served (held at its request point): the inbound one is stopped, the Established session stays
+		p := e.addPeer(1, PeerOpts{LocalAS: localAS, RemoteAS: remoteAS, Hold: 90, IdleHold: 5 * time.Second})
+		e.serve()
+		out := p.bring("out", "openConfirm", 90, remoteID)
+		if out == nil {
+			e.close()
+			return
+		}
+		release := e.hold("fsm.request#in")
+		in := p.remote.dial()
+		if e.tr.wait(0, stepWait, func(ev Event) bool { return ev.Ev == "pt.reached" && ev.Args[0] == "fsm.request#in" }) < 0 {
+			e.fail("fsm.request#in not reached")
+		}
+		out.send(wire.Keepalive())
+		time.Sleep(20 * time.Millisecond)
+		release()
+		p.waitEv(0, stepWait, "cb.exit", "OnEstablished")
+		if in != nil {
+			// whatever becomes of the inbound connection, it must not replace the Established session
+			if len(in.waitMsgs(1, 100*time.Millisecond)) >= 1 {
+				in.send(wire.Open(remoteAS, 90, remoteID, tag(in)))
+				in.waitMsgs(2, 100*time.Millisecond)
+				in.send(wire.Keepalive())
+			}
+		}
+		time.Sleep(30 * time.Millisecond)
+		out.send(wire.Update([]byte{0, 0, 0, 5}))
+		p.waitEv(0, stepWait, "cb.exit", "handler")
+		e.close()
+		return
+	}
 	p := e.addPeer(1, PeerOpts{LocalAS: localAS, RemoteAS: remoteAS, Hold: 90, IdleHold: 5 * time.Second})
 	e.serve()
 	out := p.remote.accept(stepWait)
@@ -384,7 +436,9 @@ func scenCollisionWindow(e *Env, args []string, r *rand.Rand) {
 		in.drainClose()
 	case "fsmerr":
 		in.send(wire.Update([]byte{0, 0, 0, 0}))
-	case "queued-close", "queued-delete":
+	case "est-window":
+		// handled below (different set-up)
+	case "queued-close", "queued-delete", "queued-slow":
 		// a further connection arrives while the manager is busy and the peer is stopped before the manager gets
 		// back to its loop: the connection must not be left open (whether it is served depends on what the manager
 		// finds when it gets to it, so the admission monitor is not asked)
@@ -392,13 +446,21 @@ func scenCollisionWindow(e *Env, args []string, r *rand.Rand) {
 		time.Sleep(5 * time.Millisecond)
 		done := make(chan struct{})
 		go func() {
+			if variant == "queued-slow" {
+				time.Sleep(1400 * time.Millisecond)
+			}
 			if variant == "queued-delete" {
 				p.delete()
 			}
 			e.close()
 			close(done)
 		}()
-		time.Sleep(10 * time.Millisecond)
+		if variant == "queued-slow" {
+			// the manager stays busy for more than a second: the waiting connection is still handed over (or closed)
+			time.Sleep(1300 * time.Millisecond)
+		} else {
+			time.Sleep(10 * time.Millisecond)
+		}
 		release()
 		<-done
 		_ = in2
@@ -864,7 +926,13 @@ func scenDamping(e *Env, args []string, r *rand.Rand) {
 			}
 			c2.waitEnd(stepWait)
 			p.waitEv(p.mark, stepWait, "log.damp")
-			time.Sleep(150 * time.Millisecond)
+			// an inbound connection during this (second, third, …) hold-down is refused like during the first
+			time.Sleep(50 * time.Millisecond)
+			if pr := p.remote.dial(); pr != nil {
+				pr.waitMsgs(1, 100*time.Millisecond)
+				pr.drainClose()
+			}
+			time.Sleep(50 * time.Millisecond)
 		}
 	}
 	e.close()
@@ -1231,6 +1299,10 @@ func init() {
 				}
 				// reset while the FSM goroutine is busy: later writes report the failure
 				out = append(out, fmt.Sprintf("writers:%s:k=1:n=3:end=rst-busy:inside=0:ms=50:i=%d", dir, rep))
+				// corebgp sends a NOTIFICATION (FSM error) while writers are busy, adversary on the connection
+				if dir == "in" {
+					out = append(out, fmt.Sprintf("writers:in:k=3:n=300:end=fsmerr:inside=0:pause=1:adv=1:ms=120:i=%d", rep))
+				}
 				// large bodies, sparse writes, keepalives every second, the write-interleaving adversary on the connection
 				if dir == "in" {
 					out = append(out, fmt.Sprintf("writers:in:k=2:n=12:end=cease:inside=0:pause=250:big=1:adv=1:ms=2600:i=%d", rep))
@@ -1309,6 +1381,12 @@ func init() {
 			for _, v := range []string{"ka", "fin", "fsmerr", "none"} {
 				out = append(out, fmt.Sprintf("collision-window:%s:lid=10.0.0.100:i=%d", v, rep), fmt.Sprintf("collision-window:%s:lid=10.0.0.100:i=%db", v, rep))
 			}
+			out = append(out, fmt.Sprintf("collision-window:est-window:lid=10.0.0.100:i=%d", rep), fmt.Sprintf("collision-window:est-window:lid=10.0.1.44:i=%d", rep))
+			// the outbound connection of the collision is a re-dial of the same FSM
+			for _, lid := range []string{"10.0.0.100", "10.0.1.44"} {
+				out = append(out, fmt.Sprintf("collision:lid=%s:first=in:redial=1:i=%d", lid, rep), fmt.Sprintf("collision:lid=%s:first=out:redial=1:i=%d", lid, rep),
+					fmt.Sprintf("collision:lid=%s:first=in:then=established-first:redial=1:i=%d", lid, rep))
+			}
 			// arrival orders with history: the remote's connection arrives after the outbound one is in OpenConfirm;
 			// an earlier inbound connection failed before its OPEN exchange completed
 			for _, lid := range []string{"10.0.0.100", "10.0.1.44"} {
@@ -1362,6 +1440,8 @@ func init() {
 		}
 		// API calls racing each other and Close
 		out = append(out, scenarioLists["C20"](tier, r)...)
+		// a dial that succeeds while the connect-retry timer fires: the connection is used or closed, never orphaned
+		out = append(out, "reconnect:dialrace:ih=50:cr=60", "reconnect:refuse+dialrace:ih=50:cr=60", "reconnect:dialrace+close@openSent:ih=50:cr=60")
 		for i := 0; i < 3; i++ {
 			out = append(out, fmt.Sprintf("collision-window:queued-close:lid=10.0.0.100:i=%d", i), fmt.Sprintf("collision-window:queued-delete:lid=10.0.0.100:i=%d", i))
 		}
@@ -1444,6 +1524,9 @@ func init() {
 		for i := 0; i < 3; i++ {
 			out = append(out, fmt.Sprintf("collision-window:queued-close:lid=10.0.0.100:i=%d", i), fmt.Sprintf("collision-window:queued-delete:lid=10.0.0.100:i=%d", i))
 		}
+		out = append(out, "collision-window:queued-slow:lid=10.0.0.100:i=0")
+		// the hold-down after a repeated protocol error refuses inbound connections like the first one
+		out = append(out, "damping:in:established:rcvd.3:expire=3:ms=450", "damping:out:established:rcvd.3:expire=2:ms=450")
 		// an active peer whose outbound connection is in OpenConfirm (not Established) still admits the remote's connection
 		out = append(out, "collision:lid=10.0.0.100:first=out:late=1:i=a", "collision:lid=10.0.1.44:first=out:late=1:i=a",
 			"collision:lid=10.0.0.100:first=out:late=1:prefail=1:i=a")
@@ -1483,6 +1566,9 @@ func init() {
 		}
 		// connections that match no peer / the wrong local address, then the API is used again (nothing may be left locked)
 		out = append(out, "admission:specific-local-wrong-dst", "admission:wild-local-wrong-dst", "admission:specific-unknown-src")
+		// API sequences around a failed listener: Serve again, Close
+		out = append(out, "shutdown:close:listener-error:dir=out:st=established", "shutdown:delete:listener-error:dir=out:st=openConfirm",
+			"shutdown:close:listeners:dir=in", "api-race:close-add:i=0", "api-race:delete-add:i=0")
 		n := 8
 		if tier == "thorough" {
 			n = 150
